@@ -108,11 +108,17 @@ func wrapSyntacticError(state interface {
 		// the number of bytes read that lead to the error.
 		// This implies that the offset is after the invalid text.
 		if werr, ok := err.(*jsonwire.InvalidTextError); ok && werr != nil {
-			if werr.Where == "in string" && len(werr.What) > 1 {
+			switch {
+			case werr.Where == "in string" && len(werr.What) > 1:
 				// The text of an invalid escape sequence may extend beyond
 				// the offending byte by as much as happened to be buffered.
 				offset += int64(jsonwire.InvalidEscapeSequenceLen(werr.What))
-			} else {
+			case werr.Label == "character":
+				// The first byte of an invalid character is sufficient to
+				// reject it; how many of the bytes of a multi-byte character
+				// are quoted depends on how much happened to be buffered.
+				offset++
+			default:
 				offset += int64(len(werr.What))
 			}
 		} else {
